@@ -169,6 +169,11 @@ TEMPLATES = [
     'lbl: PRINT 1', '10 PRINT 1\n10 PRINT 2', 'DECLARE SUB sb ({0})',
     'REM {0}', "' {0}", 'PRINT {0} :: PRINT 2', ': : :',
     '{0} AS INTEGER', 'zz AS {0}', 'IF n% THEN zz AS LONG',
+    'TYPE t4\nq AS t4\nEND TYPE\nDIM zz AS t4',
+    'TYPE t4\nq AS t4\nEND TYPE\nDIM zz(2) AS t4\nzz(1).q.q = 1',
+    'TYPE t5\nx AS t6\nEND TYPE\nTYPE t6\ny AS t5\nEND TYPE\nDIM zz AS t5',
+    'TYPE t7\nx AS {0}\nEND TYPE\nDIM zz AS t7\nPRINT zz.x',
+    'TYPE t8\n{0} AS LONG\nEND TYPE\nDIM zz AS t8',
     'NEXT {0}', 'FOR {0} = 1 TO 2\nNEXT {0}', 'SWAP {0}, {1}',
     'x = {0} < {1}', 'IF {0} = {1} THEN PRINT 1',
 ]
